@@ -251,12 +251,25 @@ func CoqEval(workdir, name, imports, listType, fn string, cases []string, par in
 			}
 			release := acquireCoqSlot()
 			defer release()
-			cmd := exec.Command("/bin/sh", "-c", fmt.Sprintf("ulimit -s 4000000 2>/dev/null || ulimit -s unlimited; exec timeout 900 coqc -Q %q Sebuf -w -all %q", filepath.Join(coqdir, "theories"), file))
-			cmd.Dir = workdir
 			var stdout, stderr bytes.Buffer
-			cmd.Stdout = &stdout
-			cmd.Stderr = &stderr
-			if err := cmd.Run(); err != nil {
+			// A coqc process killed from outside (the kernel's out-of-memory killer when the machine is shared
+			// with other work) says nothing about the model: the evaluation is deterministic, so the shard is
+			// simply evaluated again, after a pause, up to three times.
+			for attempt := 0; ; attempt++ {
+				cmd := exec.Command("/bin/sh", "-c", fmt.Sprintf("ulimit -s 4000000 2>/dev/null || ulimit -s unlimited; exec timeout 900 coqc -Q %q Sebuf -w -all %q", filepath.Join(coqdir, "theories"), file))
+				cmd.Dir = workdir
+				stdout.Reset()
+				stderr.Reset()
+				cmd.Stdout = &stdout
+				cmd.Stderr = &stderr
+				err := cmd.Run()
+				if err == nil {
+					break
+				}
+				if attempt < 3 && strings.Contains(err.Error(), "signal: killed") {
+					time.Sleep(time.Duration(20*(attempt+1)) * time.Second)
+					continue
+				}
 				sh.err = fmt.Errorf("coqc %s: %v\n%s\n%s", file, err, tail(stdout.String(), 2000), tail(stderr.String(), 4000))
 				return
 			}
